@@ -280,7 +280,7 @@ def apply_rules(text, features=(), keep_unsafe=False):
     # R2: ABI / attributes
     t = re.sub(r'extern\s+"sysv64"\s+', '', t)
     def _derive(m):
-        keep = [d for d in re.split(r'\s*,\s*', m.group(2).strip()) if d in ('Copy', 'Clone')]
+        keep = [d for d in re.split(r'\s*,\s*', m.group(2).strip()) if d in ('Copy', 'Clone', 'PartialEq', 'Eq')]
         return (m.group(1) + '#[derive(' + ', '.join(keep) + ')]\n') if keep else ''
     t = re.sub(r'^([ \t]*)#\[derive\(([^\]]*)\)\]\s*\n', _derive, t, flags=re.M)
     t = re.sub(r'^[ \t]*#\[(inline[^\]]*|repr\([^\]]*\)|allow\([^\]]*\))\]\s*\n', '', t, flags=re.M)
@@ -383,9 +383,9 @@ def make_pub(text):
         depth += mask_noncode(l).count('{') - mask_noncode(l).count('}')
         out.append(l)
     t = '\n'.join(out)
-    t = re.sub(r'^(\s*)(?:pub(?:\([^)]*\))?\s+)?(struct|enum|const|trait)\b', r'\1pub \2', t, count=1)
+    t = re.sub(r'^([ \t]*)(?:pub(?:\([^)]*\))?\s+)?(struct|enum|const|trait)\b', r'\1pub \2', t, count=1, flags=re.M)
     # tuple struct fields
-    t = re.sub(r'^(\s*pub struct \w+\()(?!pub)', r'\1pub ', t, count=1)
+    t = re.sub(r'^([ \t]*pub struct \w+\()(?!pub)', r'\1pub ', t, count=1, flags=re.M)
     return t
 
 
